@@ -23,7 +23,7 @@ class Unsupported(Exception):
     pass
 
 
-VEC_TAGS = {"vsym", "vzero", "vadd", "vscale", "cross", "vfun", "dvfun", "ddvfun"}
+VEC_TAGS = {"vsym", "vzero", "vadd", "vscale", "cross", "vfun", "dvfun", "ddvfun", "vfun2", "dvfun2"}
 
 
 def is_vec(r) -> bool:
@@ -48,6 +48,12 @@ def coq_of_recipe(r) -> str:
         return f"df{r[1]}"
     if t == "ddvfun":
         return f"ddf{r[1]}"
+    if t == "vfun2":
+        return f"g{r[1]}"
+    if t == "dvfun2":
+        return f"g{r[1]}_{r[2]}"
+    if t == "par2":
+        return "u"
     if t == "vzero":
         return "vzero"
     if t == "vadd":
@@ -72,6 +78,8 @@ def coq_of_recipe(r) -> str:
         return f"({coq_of_recipe(r[1])} / {coq_of_recipe(r[2])})"
     if t == "ssqrt":
         return f"(sqrt {coq_of_recipe(r[1])})"
+    if t == "slog":
+        return f"(ln {coq_of_recipe(r[1])})"
     if t == "dot":
         return f"(dot {coq_of_recipe(r[1])} {coq_of_recipe(r[2])})"
     if t == "mixed":
@@ -91,6 +99,12 @@ def show_recipe(r) -> str:
         return f"F{r[1]}'(t)"
     if t == "ddvfun":
         return f"F{r[1]}''(t)"
+    if t == "vfun2":
+        return f"G{r[1]}(t, u)"
+    if t == "dvfun2":
+        return f"d_{r[2]} G{r[1]}(t, u)"
+    if t == "par2":
+        return "u"
     if t == "vzero":
         return "0"
     if t == "vadd":
@@ -115,6 +129,14 @@ def show_recipe(r) -> str:
         return f"({show_recipe(r[1])})/({show_recipe(r[2])})"
     if t == "ssqrt":
         return f"sqrt({show_recipe(r[1])})"
+    if t == "slog":
+        return f"log({show_recipe(r[1])})"
+    if t == "imag":
+        return "I"
+    if t == "cexp":
+        return f"exp(I*{'klmnpq'[r[1]]})"
+    if t == "cunit8":
+        return "(1+I)/sqrt(2)"
     if t == "dot":
         return f"dot({show_recipe(r[1])}, {show_recipe(r[2])})"
     if t == "mixed":
@@ -137,6 +159,10 @@ def recipe_atoms(r, acc=None):
         acc["s"].add(r[1])
     elif t == "par":
         acc["par"] = True
+    elif t == "par2":
+        acc["par2"] = True
+    elif t in ("vfun2", "dvfun2"):
+        acc.setdefault("g", set()).add(r[1])
     for x in r[1:]:
         if isinstance(x, tuple):
             recipe_atoms(x, acc)
@@ -178,20 +204,24 @@ def norm_args(r, acc=None):
 # ---------------------------------------------------------------------------------------------
 
 class Env:
-    def __init__(self, vecs, scals, par=Fraction(0), funs=None, dfuns=None, ddfuns=None):
+    def __init__(self, vecs, scals, par=Fraction(0), funs=None, dfuns=None, ddfuns=None, par2=Fraction(1), g=None):
         self.vecs, self.scals, self.par = vecs, scals, par
         self.funs, self.dfuns, self.ddfuns = funs or [], dfuns or [], ddfuns or []
+        self.par2 = par2
+        self.g = g or {}             # "i" / "i_t" / "i_u" / "i_tu" -> vector: a function of (t, u) and its partial derivatives
 
     def to_json(self):
         j = lambda v: [str(c) for c in v]
         return {"vectors": [j(v) for v in self.vecs], "scalars": [str(s) for s in self.scals], "t": str(self.par),
-            "F": [j(v) for v in self.funs], "dF": [j(v) for v in self.dfuns], "ddF": [j(v) for v in self.ddfuns]}
+            "F": [j(v) for v in self.funs], "dF": [j(v) for v in self.dfuns], "ddF": [j(v) for v in self.ddfuns],
+            "u": str(self.par2), "G": {k: j(v) for k, v in self.g.items()}}
 
     @staticmethod
     def from_json(d):
         fr = lambda v: tuple(Fraction(c) for c in v)
         return Env([fr(v) for v in d["vectors"]], [Fraction(s) for s in d["scalars"]], Fraction(d["t"]),
-            [fr(v) for v in d.get("F", [])], [fr(v) for v in d.get("dF", [])], [fr(v) for v in d.get("ddF", [])])
+            [fr(v) for v in d.get("F", [])], [fr(v) for v in d.get("dF", [])], [fr(v) for v in d.get("ddF", [])],
+            Fraction(d.get("u", "1")), {k: fr(v) for k, v in d.get("G", {}).items()})
 
 
 def v_add(a, b):
@@ -244,6 +274,12 @@ def eval_recipe(r, env: Env):
         return env.dfuns[r[1]]
     if t == "ddvfun":
         return env.ddfuns[r[1]]
+    if t == "vfun2":
+        return env.g[str(r[1])]
+    if t == "dvfun2":
+        return env.g[f"{r[1]}_{r[2]}"]
+    if t == "par2":
+        return env.par2
     if t == "vzero":
         return ZERO3
     if t == "vadd":
@@ -304,8 +340,10 @@ class Objs:
     symbols; `rank` (optional) assigns identity ranks: symbol i gets the object whose id() has rank rank[i]
     among freshly created ones, so every id()-order can be produced deterministically."""
 
-    def __init__(self, nvec, nscal, nfun=0, rank=None, creation=None, spread=None, spread_rng=None):
-        from symplyphysics.core.experimental.vectors import VectorSymbol, VectorFunction  # pylint: disable=import-outside-toplevel
+    def __init__(self, nvec, nscal, nfun=0, rank=None, creation=None, spread=None, spread_rng=None, same_name=False, nfun2=0):
+        from symplyphysics.core.experimental.vectors import VectorSymbol as _VS, VectorFunction  # pylint: disable=import-outside-toplevel
+        # same_name: distinct symbols / functions that share one display name (they stay distinct objects with independent values)
+        VectorSymbol = (lambda _n=None: _VS("v")) if same_name else _VS
         names = "abcdefgh"
         self.between = None
         if spread is not None:
@@ -356,7 +394,11 @@ class Objs:
             self.vecs = [made[i] for i in range(nvec)]
         self.scals = [sympy.Symbol(f"s{j}", real=True) for j in range(nscal)]
         self.par = sympy.Symbol("t", real=True)
-        self.funs = [VectorFunction(f"F{i}", arguments=(self.par,))(self.par) for i in range(nfun)]
+        self.funs = [VectorFunction("F" if same_name else f"F{i}", arguments=(self.par,))(self.par) for i in range(nfun)]
+        self.par2 = sympy.Symbol("u", real=True)
+        # vector functions of two (odd i: three) scalar arguments
+        self.funs2 = [VectorFunction("G" if same_name else f"G{i}")(*((self.par, self.par2) if i % 2 == 0 else (self.par, self.par2, self.scals[0])))
+            for i in range(nfun2)]
         self._keep = list(self.vecs)      # keep the objects alive: ids must stay unique
 
     def id_rank(self):
@@ -377,6 +419,10 @@ def build(r, o: Objs, evaluate=True):
         return o.vecs[r[1]]
     if t == "vfun":
         return o.funs[r[1]]
+    if t == "vfun2":
+        return o.funs2[r[1]]
+    if t == "par2":
+        return o.par2
     if t == "vzero":
         return S.Zero
     if t == "vadd":
@@ -401,6 +447,14 @@ def build(r, o: Objs, evaluate=True):
         return sympy.Mul(build(r[1], o, evaluate), sympy.Pow(build(r[2], o, evaluate), -1, **kw), **kw)
     if t == "ssqrt":
         return sympy.sqrt(build(r[1], o, evaluate), **kw)
+    if t == "slog":
+        return sympy.log(build(r[1], o, evaluate), **kw)
+    if t == "imag":
+        return sympy.I
+    if t == "cexp":
+        return sympy.exp(sympy.I * o.scals[r[1]])
+    if t == "cunit8":
+        return (1 + sympy.I) / sympy.sqrt(2)
     if t == "dot":
         return V.VectorDot(build(r[1], o, evaluate), build(r[2], o, evaluate), **kw)
     if t == "mixed":
@@ -419,6 +473,7 @@ class OutCtx:
         self.vec_name = {}
         self.scal_name = {}
         self.fun_name = {}
+        self.fun2_name = {}
         if o is not None:
             for i, v in enumerate(o.vecs):
                 self.vec_name[id(v)] = f"v{i}"
@@ -427,6 +482,9 @@ class OutCtx:
             self.scal_name[o.par] = "t"
             for i, f in enumerate(o.funs):
                 self.fun_name[f] = i
+            self.scal_name[o.par2] = "u"
+            for i, f in enumerate(getattr(o, "funs2", [])):
+                self.fun2_name[f] = i
         for k, n in (extra_vec or {}).items():
             self.vec_name[k] = n
         for k, n in (extra_scal or {}).items():
@@ -466,6 +524,22 @@ def _pow_text(base: str, n: int) -> str:
     return "(" + " * ".join(parts) + ")"
 
 
+def partial_tag(e, c: OutCtx):
+    """VectorDerivative(G_i(t, u[, s]), ...) -> (i, "t" | "u" | "tu"); None if not of that form"""
+    if e.args[0] not in c.fun2_name:
+        return None
+    counts = {}
+    for var, n in e.args[1:]:
+        name = c.scal_name.get(var)
+        if name not in ("t", "u"):
+            return None
+        counts[name] = counts.get(name, 0) + int(n)
+    key = "".join(k * counts[k] for k in sorted(counts))
+    if key not in ("t", "u", "tu"):
+        return None
+    return c.fun2_name[e.args[0]], key
+
+
 def coq_of_sympy(e, c: OutCtx, want: str) -> str:
     """want = 'v' | 's' : the type the context requires (decides what a bare 0 means)."""
     from symplyphysics.core.experimental import vectors as V  # pylint: disable=import-outside-toplevel
@@ -477,10 +551,15 @@ def coq_of_sympy(e, c: OutCtx, want: str) -> str:
             if id(e) not in c.vec_name:
                 raise Unsupported(f"unknown vector symbol {e}")
             return c.vec_name[id(e)]
-        if isinstance(e, V.AppliedVectorFunction):
+        if isinstance(e, V.AppliedVectorFunction) and e not in c.fun2_name:
             if e not in c.fun_name:
                 raise Unsupported(f"unknown vector function application {e}")
             return f"f{c.fun_name[e]}"
+        if isinstance(e, V.AppliedVectorFunction) and e in c.fun2_name:
+            return f"g{c.fun2_name[e]}"
+        if isinstance(e, V.VectorDerivative) and partial_tag(e, c):
+            i, key = partial_tag(e, c)
+            return f"g{i}_{key}"
         if isinstance(e, V.VectorDerivative):
             if len(e.args) == 2 and e.args[0] in c.fun_name and tuple(e.args[1]) in ((c_par(c), 1), (c_par(c), 2)):
                 return ("df" if e.args[1][1] == 1 else "ddf") + str(c.fun_name[e.args[0]])
@@ -528,7 +607,13 @@ def coq_of_sympy(e, c: OutCtx, want: str) -> str:
             return f"(/ {_pow_text(bt, -int(x))})"
         if x == sympy.Rational(1, 2):
             return f"(sqrt {coq_of_sympy(b, c, 's')})"
+        if x == sympy.Rational(-1, 2):
+            bt = f"(sqrt {coq_of_sympy(b, c, 's')})"
+            c.den_args.append(bt)
+            return f"(/ {bt})"
         raise Unsupported(f"power {e}")
+    if isinstance(e, sympy.log):
+        return f"(ln {coq_of_sympy(e.args[0], c, 's')})"
     if isinstance(e, sympy.Abs):
         a = coq_of_sympy(e.args[0], c, "s")
         c.abs_args.append((a, e.args[0]))
@@ -561,6 +646,11 @@ def eval_sympy(e, c: OutCtx, env: Env, want: str):
             return ZERO3
         if isinstance(e, V.VectorSymbol):
             return env.vecs[int(c.vec_name[id(e)][1:])]
+        if isinstance(e, V.AppliedVectorFunction) and e in c.fun2_name:
+            return env.g[str(c.fun2_name[e])]
+        if isinstance(e, V.VectorDerivative) and partial_tag(e, c):
+            i, key = partial_tag(e, c)
+            return env.g[f"{i}_{key}"]
         if isinstance(e, V.AppliedVectorFunction):
             return env.funs[c.fun_name[e]]
         if isinstance(e, V.VectorDerivative):
@@ -590,6 +680,8 @@ def eval_sympy(e, c: OutCtx, env: Env, want: str):
         return Fraction(int(e.p), int(e.q))
     if isinstance(e, sympy.Symbol):
         n = c.scal_name[e]
+        if n == "u":
+            return env.par2
         return env.par if n == "t" else env.scals[int(n[1:])]
     if isinstance(e, sympy.Add):
         out = Fraction(0)
@@ -627,7 +719,10 @@ def eval_sympy(e, c: OutCtx, env: Env, want: str):
 # own differentiation of a recipe w.r.t. the parameter (the specification: linearity + product rule)
 # ---------------------------------------------------------------------------------------------
 
-def diff_recipe(r):
+def diff_recipe(r, wrt="t"):
+    """d/dt (wrt="t") or d/du (wrt="u"): linearity and the product rule; derivatives of vector functions are atoms"""
+    if wrt == "u":
+        return _diff_u(r)
     t = r[0]
     if t in ("vsym", "vzero"):
         return ("vzero",)
@@ -635,6 +730,12 @@ def diff_recipe(r):
         return ("dvfun", r[1])
     if t == "dvfun":
         return ("ddvfun", r[1])
+    if t == "vfun2":
+        return ("dvfun2", r[1], "t")
+    if t == "dvfun2" and r[2] == "u":
+        return ("dvfun2", r[1], "tu")
+    if t == "par2":
+        return ("int", 0)
     if t == "vadd":
         return ("vadd", diff_recipe(r[1]), diff_recipe(r[2]))
     if t == "vscale":
@@ -658,6 +759,37 @@ def diff_recipe(r):
         # d|v| = (v . dv) / |v|   (where |v| <> 0)
         return ("sdiv", ("dot", r[1], diff_recipe(r[1])), ("norm", r[1]))
     raise Unsupported(f"diff of {t}")
+
+
+def _diff_u(r):
+    t = r[0]
+    D = _diff_u
+    if t in ("vsym", "vzero", "vfun", "dvfun", "ddvfun"):
+        return ("vzero",)
+    if t == "vfun2":
+        return ("dvfun2", r[1], "u")
+    if t == "dvfun2" and r[2] == "t":
+        return ("dvfun2", r[1], "tu")
+    if t == "vadd":
+        return ("vadd", D(r[1]), D(r[2]))
+    if t == "vscale":
+        return ("vadd", ("vscale", D(r[1]), r[2]), ("vscale", r[1], D(r[2])))
+    if t == "cross":
+        return ("vadd", ("cross", D(r[1]), r[2]), ("cross", r[1], D(r[2])))
+    if t in ("int", "rat", "ssym", "par"):
+        return ("int", 0)
+    if t == "par2":
+        return ("int", 1)
+    if t == "sadd":
+        return ("sadd", D(r[1]), D(r[2]))
+    if t == "smul":
+        return ("sadd", ("smul", D(r[1]), r[2]), ("smul", r[1], D(r[2])))
+    if t == "dot":
+        return ("sadd", ("dot", D(r[1]), r[2]), ("dot", r[1], D(r[2])))
+    if t == "mixed":
+        a, b, c = r[1:]
+        return ("sadd", ("mixed", D(a), b, c), ("sadd", ("mixed", a, D(b), c), ("mixed", a, b, D(c))))
+    raise Unsupported(f"d/du of {t}")
 
 
 # ---------------------------------------------------------------------------------------------
@@ -813,7 +945,14 @@ def binder(atoms, with_funs=True) -> str:
         vs += [f"f{i}" for i in sorted(atoms["f"])] + [f"df{i}" for i in sorted(atoms["f"])] + [f"ddf{i}" for i in sorted(atoms["f"])]
     if vs:
         parts.append("(" + " ".join(vs) + " : V3)")
-    ss = [f"s{j}" for j in sorted(atoms["s"])] + (["t"] if atoms["par"] else [])
+    if with_funs:
+        for i in sorted(atoms.get("g", ())):
+            vs += [f"g{i}", f"g{i}_t", f"g{i}_u", f"g{i}_tu"]
+        if atoms.get("g") and parts:
+            parts[0] = "(" + " ".join(vs) + " : V3)"
+        elif atoms.get("g"):
+            parts.append("(" + " ".join(vs) + " : V3)")
+    ss = [f"s{j}" for j in sorted(atoms["s"])] + (["t"] if atoms["par"] else []) + (["u"] if atoms.get("par2") else [])
     if ss:
         parts.append("(" + " ".join(ss) + " : R)")
     return " ".join(parts)
